@@ -131,10 +131,9 @@ def signature(res, verdict):
         # unbounded recursion / expansion shows up as whichever resource runs out first
         return "runaway (hang | memory cap | stack overflow)"
     if kind in ("err-exit0", "err-output", "silent-fail"):
-        if kind in ("err-exit0", "err-output"):
-            m = re.search(r" error: (.*)", e)
-            return "%s: %s" % (kind, _NUM.sub("N", m.group(1))[:60] if m else "?")
-        return kind
+        return {"err-exit0": "parse error reported, exit status 0",
+                "err-output": "parse error reported, output files written",
+                "silent-fail": "non-zero exit status without a diagnostic"}[kind]
     m = re.search(r"ERROR: AddressSanitizer: (\S+)", e)
     if m:
         frames = re.findall(r"^\s*#\d+ 0x[0-9a-f]+ in (.*?) (/\S+|\(\S+\))\s*$", e, re.M)
